@@ -15,6 +15,8 @@ over-approximates reachability only through name collisions between model files:
 import json
 import os
 import re
+import sys
+sys.path.insert(0, os.path.dirname(os.path.abspath(__file__)))
 
 VERIF = os.path.dirname(os.path.dirname(os.path.abspath(__file__)))
 COQ = os.path.join(VERIF, "coq")
@@ -38,12 +40,13 @@ def strip_comments(s):
     return "".join(out)
 
 
-def definitions():
-    """name -> set(identifiers in its body); also fields/constructors/`with` functions map to the owner's body"""
+def definitions(only=None):
+    """name -> set(identifiers in its body); also fields/constructors/`with` functions map to the owner's body.
+    `only`: restrict to these files (relative to coq/), e.g. the import closure of one property file."""
     defs = {}
     for sub in ("Base", "Model"):
         for fn in sorted(os.listdir(os.path.join(COQ, sub))):
-            if not fn.endswith(".v"):
+            if not fn.endswith(".v") or (only is not None and "%s/%s" % (sub, fn) not in only):
                 continue
             text = strip_comments(open(os.path.join(COQ, sub, fn)).read())
             # sentences end with ". " / ".\n"
@@ -90,7 +93,7 @@ def entry_points(casedir, defs):
         for fn in os.listdir(casedir):
             if fn.endswith(".v"):
                 e0 |= set(IDENT.findall(open(os.path.join(casedir, fn)).read())) & set(defs)
-    return e0
+    return {n for n in e0 if not re.fullmatch(r"c\d+|results", n)}     # the cases file's own names
 
 
 def closure(e0, defs):
@@ -117,9 +120,11 @@ def audit(pid, casedir):
                 for n in closure(entry_points(os.path.join(root, other), defs), defs):
                     via.setdefault(n, other)
     stm, extra = statements(pid)
+    import common
+    visible = set(definitions(only=set(common.coq_closure("Properties/%s.v" % pid))))
     spoken = {}
     for th, ids in stm.items():
-        for n in (ids | extra) & set(defs):
+        for n in (ids | extra) & visible:
             spoken.setdefault(n, []).append(th)
     allow = {}
     p = os.path.join(COQ, "tie_allow.json")
@@ -141,7 +146,6 @@ def audit(pid, casedir):
 
 
 if __name__ == "__main__":
-    import sys
     for pid in sys.argv[1:] or ["C%02d" % i for i in range(1, 19)]:
         r = audit(pid, os.path.join(VERIF, ".cache", "cases", pid))
         print(pid, "spoken", r["model_definitions_in_theorem_statements"], "reached", r["of_those_reached"],
